@@ -845,6 +845,7 @@ FALSE = ('C', 'false')
 NONE = ('NONE',)
 DFLT = ('DEFAULT',)
 ANY = ('ANY',)
+MAXC = ('MAX',)
 
 
 def A(n):
@@ -1022,6 +1023,9 @@ def _match(cx, P, pat, v, notes):
         return 'expected the constant %s, found %s' % (pat[1], P.show(v))
     if k == 'NONE':
         return None if v == ('none',) else 'expected None, found %s' % P.show(v)
+    if k == 'MAX':
+        ok = v[0] == 'const' and (v[1].endswith('::MAX') or v[1].split('_')[0] == '18446744073709551615')
+        return None if ok else 'expected usize::MAX (no limit), found %s' % P.show(v)
     if k == 'DEFAULT':
         if v[0] == 'call' and v[1].endswith('Default::default'):
             return None
@@ -1074,6 +1078,33 @@ def _match(cx, P, pat, v, notes):
             first_msg = first_msg or bad
         return first_msg or last
     return None
+
+
+def check_builder_trees(cx, prop, rule, table, what='is not the composition its documentation states'):
+    """table: builder path -> (short name, pattern)"""
+    from .. import prov as P
+    F = cx.facts
+    res = []
+    by = {fn['path']: fn for fn in F.fns.values() if fn['kind'] not in ('closure', 'coroutine')}
+    for path, (short, pat) in sorted(table.items()):
+        fn = by.get(path)
+        if fn is None:
+            res.append(Finding(prop, rule, 'table:' + path, False, 'builder not found (fail closed)'))
+            continue
+        g = cx.graph(fn['key'], defaults=True)
+        sums, _ = P.summaries(g, item_arg=0, maxd=40)
+        bad = None
+        notes = []
+        if not sums:
+            bad = 'no returning path'
+        for sm, key in sums:
+            v = sm['store'].get(('L', 0), ('unk',))
+            bad = bad or _match(cx, P, pat, v, notes)
+        if bad:
+            res.append(Finding(prop, rule, path, False, '%s %s: %s' % (short or path, what, bad), fn['span']))
+        else:
+            res.append(Finding(prop, rule, path, True, 'operator tree agrees with the definition' + ((' (%d part(s) undecided)' % len(notes)) if notes else ''), fn['span']))
+    return res
 
 
 def s11(cx):
